@@ -5,6 +5,8 @@ from ..poly import PW, Poly, const, sym
 from ..values import Arr, DType, Inst, Op, RaisedInAnalysed, Unsupported, simplify_scalar, to_pw
 from .common import short
 
+CASE_SPLIT = "decisions"     # a branch on caller data (tolerance test of the right-hand side) is analysed on both outcomes
+
 SPNE = "sopht.numeric.eulerian_grid_ops"
 SIZES = {2: ("ny", "nx"), 3: ("nz", "ny", "nx")}
 AX = {2: ("y", "x"), 3: ("z", "y", "x")}
